@@ -4,6 +4,7 @@ package props
 import (
 	"verif/mon"
 	"verif/props/c01"
+	"verif/props/c02"
 	"verif/props/c03"
 )
 
@@ -11,6 +12,7 @@ import (
 func Registry() map[string]func() *mon.Spec {
 	return map[string]func() *mon.Spec{
 		"C01": c01.Spec,
+		"C02": c02.Spec,
 		"C03": c03.Spec,
 	}
 }
